@@ -158,6 +158,15 @@ func jobs(tier string) []driver.Job {
 			}
 		}
 	}
+	// (b') a context that is already cancelled, or cancelled while the root is resolved/mapped:
+	// whatever the call returns, success must still mean a complete copy
+	for _, d := range Curated() {
+		root := len(d.Nodes) - 1
+		for _, api := range []string{"graph-cancelled", "copy-cancelled", "copy-cancel-in-resolve", "copy-cancel-in-maproot"} {
+			s := scen{d: d, root: root, conc: 2, api: api, src: "memory", dst: "memory"}
+			out = append(out, schedJob(s, explore.Bounds{Dev: 1}, []int{0}, 0, 1))
+		}
+	}
 	// (c) pairing sweep
 	kinds := []string{"memory", "oci", "file"}
 	for _, d := range Curated() {
@@ -266,8 +275,29 @@ func (s scen) make(transferred *bool) (func(), func(*vs.Result) *driver.Fail) {
 	}
 	var err error
 	var got ocispec.Descriptor
+	ctx, cancel := context.WithCancel(context.Background())
+	cancelled := strings.Contains(s.api, "cancel")
+	switch s.api {
+	case "graph-cancelled", "copy-cancelled":
+		cancel()
+	case "copy-cancel-in-resolve":
+		src.R = resolverFunc(func(c context.Context, ref string) (ocispec.Descriptor, error) {
+			cancel()
+			return srcS.Resolve(c, ref)
+		})
+	case "copy-cancel-in-maproot":
+		opts.MapRoot = func(c context.Context, st content.ReadOnlyStorage, root ocispec.Descriptor) (ocispec.Descriptor, error) {
+			cancel()
+			return root, nil
+		}
+	}
 	body := func() {
-		if s.api == "graph" {
+		defer cancel()
+		if s.api == "graph-cancelled" {
+			err = oras.CopyGraph(ctx, src, dst, rootDesc, opts.CopyGraphOptions)
+		} else if cancelled {
+			got, err = oras.Copy(ctx, src, "ref", dst, "", opts)
+		} else if s.api == "graph" {
 			err = oras.CopyGraph(context.Background(), src, dst, rootDesc, opts.CopyGraphOptions)
 		} else {
 			got, err = oras.Copy(context.Background(), src, "ref", dst, map[bool]string{true: "other", false: ""}[s.api == "copyref"], opts)
@@ -288,6 +318,9 @@ func (s scen) make(transferred *bool) (func(), func(*vs.Result) *driver.Fail) {
 			}
 			return nil
 		}
+		if err != nil && cancelled {
+			return nil // a cancelled call may fail; only a reported success is judged
+		}
 		if err != nil {
 			return &driver.Fail{Sig: "fault-free copy failed", Detail: s.name() + ": " + err.Error()}
 		}
@@ -300,7 +333,7 @@ func (s scen) make(transferred *bool) (func(), func(*vs.Result) *driver.Fail) {
 		if bad := CheckCopied(dstS, d, want); bad != "" {
 			return &driver.Fail{Sig: "success but a reachable node is missing or differs in the destination", Detail: s.name() + ": " + bad}
 		}
-		if s.api != "graph" {
+		if s.api != "graph" && s.api != "graph-cancelled" {
 			wr := d.Nodes[wantRoot].Desc
 			if got.Digest != wr.Digest || got.Size != wr.Size || got.MediaType != wr.MediaType {
 				return &driver.Fail{Sig: "Copy returned a descriptor that is not the (mapped) root", Detail: fmt.Sprintf("%s: got %v want %v", s.name(), got, wr)}
@@ -323,4 +356,10 @@ func indexOfConfig(n *Node) int {
 		return 1
 	}
 	return 0
+}
+
+type resolverFunc func(ctx context.Context, ref string) (ocispec.Descriptor, error)
+
+func (f resolverFunc) Resolve(ctx context.Context, ref string) (ocispec.Descriptor, error) {
+	return f(ctx, ref)
 }
